@@ -5,11 +5,13 @@
 (* dump of every abstract case with Level 2's prediction for replay (B1).  *)
 (***************************************************************************)
 EXTENDS Params, Json, IOUtils
-CONSTANTS MaxLen, Syms, DumpCases
+CONSTANTS MaxLen, Syms, DumpCases, Extra3
 R == INSTANCE Req
 
 FnNames == { Nm("foo"), Nm("arg1"), RawNm("match") }
-Lists   == UNION { [1..n -> Syms] : n \in 0..MaxLen }
+\* (Extra3: three-parameter lists over the symbols whose names interact with GENERATED names - a generated `argN` needs
+\*  both `argN` and `_argN` taken elsewhere before the second retry matters - included even when MaxLen < 3)
+Lists   == UNION { [1..n -> Syms] : n \in 0..MaxLen } \cup (IF MaxLen < 3 THEN [1..3 -> Extra3] ELSE {})
 Inputs  == { in \in [list : Lists, f : FnNames, nodeps : BOOLEAN] : ValidOriginal(in.list, in.f) }
 
 \* ---- the abstract input as Level 1 sees it
